@@ -9,6 +9,11 @@ colour type and bit depth and EVERY `u32` width the translated functions equal t
 (`samplesOf`, `combinationInvalid`, `checkedRawRowLength`, `rawRowLengthFromWidth`, `bitsPerPixel`, `bytesPerPixel`,
 `bppFromUsize`) and stay inside `usize` / `u64` (`_ok`: in particular `width as usize * samples` and the `* 2` for 16-bit
 samples cannot overflow a 64-bit `usize`; `usize` is taken as 64 bits wide, as everywhere in the model).
+
+Every theorem about a function that takes a `ColorType` / `BitDepth` is stated on the function's real domain - the discriminants of the
+five variants each (`colorOk`, `depthOk`) - and proved by evaluating the translated function on these values, so it holds for every way of
+writing the Rust function that computes the same answers on enum values; what the translation does with a number that is no variant is
+not observable and not constrained.
 -/
 namespace Png.Kernels
 open Png
@@ -23,12 +28,15 @@ theorem kernel_samples (c : Nat) (h : colorOk c = true) :
     Gen.ColorType_samples_ok c = true ∧ Gen.ColorType_samples_u8_ok c = true := by
   rcases colorOk_cases h with h | h | h | h | h <;> subst h <;> decide
 
-/-- for ANY two numbers, not only legal ones -/
-theorem kernel_combination_invalid (c d : Nat) :
-    Gen.ColorType_is_combination_invalid c d = combinationInvalid c d := by
-  rw [Bool.eq_iff_iff]
-  simp only [Gen.ColorType_is_combination_invalid, combinationInvalid, Bool.or_eq_true, Bool.and_eq_true, decide_eq_true_eq, beq_iff_eq]
-  omega
+/-- `ColorType::is_combination_invalid` (common.rs:74-83) on its REAL domain: `self` is one of the five `ColorType` variants and `bit_depth`
+    one of the five `BitDepth` variants (in `parse_ihdr` it is called after both `from_u8` decoders succeeded; an enum value cannot be anything
+    else).  Proved by evaluating the translated function on the 25 pairs, so the proof does not depend on how the Rust function is written
+    (a Boolean formula, a `match self`, a table), and two functions that agree on the 25 pairs but differ on numbers that are no variant
+    (e.g. "depth 3") are not told apart; any change of the answer on one of the 25 pairs makes `decide` fail. -/
+theorem kernel_combination_invalid (c d : Nat) (hc : colorOk c = true) (hd : depthOk d = true) :
+    Gen.ColorType_is_combination_invalid c d = combinationInvalid c d ∧ Gen.ColorType_is_combination_invalid_ok c d = true := by
+  rcases colorOk_cases hc with h | h | h | h | h <;> subst h <;>
+  rcases depthOk_cases hd with h | h | h | h | h <;> subst h <;> decide
 
 theorem kernel_raw_row_length (c d w : Nat) (hc : colorOk c = true) (hd : depthOk d = true) (hw : w < 2 ^ 32) :
     Gen.ColorType_raw_row_length_from_width c d w = (rawRowLengthFromWidth c d w : Nat) ∧
